@@ -47,6 +47,10 @@ class Env:
         self.hist.append(list(ev))
         kind = ev[0]
         before = len(self.problems)
+        if not self.dead and not self.w.alive:
+            self._mark_dead()
+        if self.dead:
+            return self.problems[before:]
         if kind == "conn":
             slot = ev[1]
             hid = self.hids.get(slot)
@@ -56,8 +60,12 @@ class Env:
             self.received[slot] = []
         elif kind == "send":
             slot, data = ev[1], bytes.fromhex(ev[2])
-            self.w.clients[slot].send(data)
-            self.s.clients[slot].sock.sendall(data)
+            # a client writing to a connection the hub has already closed just gets an error
+            for sock in (self.w.clients[slot].sock, self.s.clients[slot].sock):
+                try:
+                    sock.sendall(data)
+                except ConnectionError:
+                    pass
         elif kind == "fin":
             self.w.clients[ev[1]].fin()
             self.s.clients[ev[1]].sock.close()
@@ -95,6 +103,12 @@ class Env:
         d = {"prop": prop, "kind": kind, "round": self.rounds, **kw}
         self.problems.append(d)
 
+    def _mark_dead(self):
+        self.dead = True
+        ex = self.w.exit or ("?",)
+        self._problem("C03", "manager-" + ex[0], detail=ex[1] if len(ex) > 1 else "",
+                      trace=(ex[2][-1500:] if len(ex) > 2 else ""))
+
     def _round(self, order, nonwritable):
         if self.dead:
             return
@@ -103,10 +117,7 @@ class Env:
         self.s.round(order, nonwritable)
         self.last_round = {}
         if not self.w.alive:
-            self.dead = True
-            ex = self.w.exit or ("?",)
-            self._problem("C03", "manager-" + ex[0], detail=ex[1] if len(ex) > 1 else "",
-                          trace=(ex[2][-1500:] if len(ex) > 2 else ""))
+            self._mark_dead()
             return
         for slot, ic in self.w.clients.items():
             sc = self.s.clients[slot]
